@@ -19,7 +19,8 @@
 //    value built so far.
 // Bounded: at most 1 operator application in total (2 in the thorough variant), operands nest one level deep (an operand's own operators
 // are postfix ones; prefix / infix operators inside an operand are not applied by the stub) - two levels in
-// `pratt_loop_nested_emit_b2_t`, which is what shows an operand parsed at a power other than the one asked for
+// `pratt_loop_prefix_in_operand_emit_b2` (restricted to the shape `atom infix (prefix atom)`; the unrestricted two-level
+// variant did not finish: 6 GB after 11 minutes), which is what shows an operand parsed at a power other than the one asked for
 // when the operator itself sits inside an operand.
 
 use super::fw::*;
@@ -88,6 +89,9 @@ pub struct AnyOp {
     /// harness bound: levels of operands an applying prefix / infix operator may open (1 = operands of the
     /// outermost expression only)
     pub max_depth: usize,
+    /// harness bound on the SHAPE of the expression: false = any; true = only `atom infix (prefix atom)`: at the
+    /// outermost level only an infix operator may apply, inside its right operand only a prefix operator
+    pub chain: bool,
 }
 impl AnyOp {
     fn g(&self) -> &mut OpGhost {
@@ -150,7 +154,7 @@ impl Operator<'static, I8, u16, E8> for AnyOp {
         g.last_pos[d] = inp.cursor;
         g.last_applied[d] = false;
         g.val[d] = None;
-        let applies = g.apps < self.max_apps && d + 1 < LV && d < self.max_depth && ch::any_bool();
+        let applies = g.apps < self.max_apps && d + 1 < LV && d < self.max_depth && (!self.chain || d == 1) && ch::any_bool();
         if !applies || !Self::consume(inp) {
             return Err(());
         }
@@ -206,7 +210,7 @@ impl Operator<'static, I8, u16, E8> for AnyOp {
         if d == 0 {
             g.end_pos0 = inp.cursor;
         }
-        let applies = g.apps < self.max_apps && ch::any_bool();
+        let applies = g.apps < self.max_apps && !self.chain && ch::any_bool();
         if !applies || !Self::consume(inp) {
             return Err(lhs);
         }
@@ -246,7 +250,7 @@ impl Operator<'static, I8, u16, E8> for AnyOp {
         g.last_kind[d] = 3;
         g.last_pos[d] = inp.cursor;
         g.last_applied[d] = false;
-        let applies = g.apps < self.max_apps && d + 1 < LV && d < self.max_depth && ch::any_bool();
+        let applies = g.apps < self.max_apps && d + 1 < LV && d < self.max_depth && (!self.chain || d == 0) && ch::any_bool();
         if !applies || !Self::consume(inp) {
             return Err(lhs);
         }
@@ -294,14 +298,14 @@ impl Operator<'static, I8, u16, E8> for AnyOp {
 }
 
 /// `atom.pratt(table)` with the stub table: the driver's contract (see the head of this file).
-pub fn h_pratt_loop<M: VMode, const APPS: usize, const DEPTH: usize>() {
+pub fn h_pratt_loop<M: VMode, const APPS: usize, const DEPTH: usize, const CHAIN: bool>() {
     run::<u8, VS, (), _>(|inp, s0| {
         inp.state.quiet = true;
         let mut ghost = OpGhost::new();
         let mut atom = anyp_multi::<I8, E8>(0, 3);
-        atom.progress = true;
+        atom.progress = !CHAIN; // (the chain shape needs four parts: let atoms be empty so that short inputs reach it)
         atom.ok_offers = false;
-        let p = atom.pratt(AnyOp { g: &mut ghost, max_apps: APPS, max_depth: DEPTH });
+        let p = atom.pratt(AnyOp { g: &mut ghost, max_apps: APPS, max_depth: DEPTH, chain: CHAIN });
         let r = p.gov::<M>(inp);
         let s = snap(inp);
         let g = &ghost;
@@ -309,14 +313,16 @@ pub fn h_pratt_loop<M: VMode, const APPS: usize, const DEPTH: usize>() {
         vassert!(g.prefix_attempts >= 1 && g.first_prefix_pos == s0.pos, "C09/pratt_loop.expression-starts-with-a-prefix-attempt-at-the-entry-position");
         let a0 = lg(inp, 0);
         if r.is_ok() {
-            if APPS >= 2 {
+            if APPS >= 2 && !CHAIN {
                 vcover!(g.infix_applied == 2, "pratt loop: two infix operators");
                 vcover!(g.prefix_applied == 1 && g.infix_applied == 1, "pratt loop: prefix and infix");
                 vcover!(g.postfix_applied == 1 && g.prefix_applied == 1, "pratt loop: prefix and postfix");
             }
             vcover!(g.prefix_applied == 1, "pratt loop: a prefix operator applied");
             vcover!(g.infix_applied == 1, "pratt loop: an infix operator applied");
-            vcover!(g.postfix_applied == 1, "pratt loop: a postfix operator applied");
+            if !CHAIN {
+                vcover!(g.postfix_applied == 1, "pratt loop: a postfix operator applied");
+            }
             vcover!(g.apps == 0, "pratt loop: a single atom");
             vcover!(g.nested_seen, "pratt loop: operator attempts inside an operand");
             if DEPTH >= 2 {
@@ -364,11 +370,11 @@ impl<M: VMode> VModePeek<M> {
 
 harnesses! {
     #[kani::unwind(3)]
-    pratt_loop_emit_b1 = h_pratt_loop::<Emit, 1, 1>;
+    pratt_loop_emit_b1 = h_pratt_loop::<Emit, 1, 1, false>;
     #[kani::unwind(3)]
-    pratt_loop_check_b1 = h_pratt_loop::<Check, 1, 1>;
+    pratt_loop_check_b1 = h_pratt_loop::<Check, 1, 1, false>;
     #[kani::unwind(4)]
-    pratt_loop_emit_b2_t = h_pratt_loop::<Emit, 2, 1>;
+    pratt_loop_emit_b2_t = h_pratt_loop::<Emit, 2, 1, false>;
     #[kani::unwind(4)]
-    pratt_loop_nested_emit_b2_t = h_pratt_loop::<Emit, 2, 2>;
+    pratt_loop_prefix_in_operand_emit_b2 = h_pratt_loop::<Emit, 2, 2, true>;
 }
